@@ -105,6 +105,9 @@ func Unmarshal(data []byte, v any) error {
 	defer verifReleaseDec(d)
 	//var d decodeState
 	d.useNumber = true
+	// The state comes from a pool and scan.reset by design doesn't set
+	// bytes to zero (see newScanner).
+	d.scan.bytes = 0
 	err := checkValid(data, &d.scan)
 	if err != nil {
 		return err
@@ -131,6 +134,9 @@ func UnmarshalWithKeys(data []byte, v any) ([]string, error) {
 	defer verifReleaseDec(d)
 	//var d decodeState
 	d.useNumber = true
+	// The state comes from a pool and scan.reset by design doesn't set
+	// bytes to zero (see newScanner).
+	d.scan.bytes = 0
 	err := checkValid(data, &d.scan)
 	if err != nil {
 		return nil, err
